@@ -12,7 +12,7 @@ sync)
   mkdir -p $E/verif
   rsync -a --delete --exclude .build --exclude .git --exclude violations --exclude evidence /verif/ $E/verif/
   mkdir -p $E/verif/evidence
-  grep -rlE "/repo|/verif" $E/verif/check $E/verif/harness/Cargo.toml $E/verif/harness/.cargo/config.toml $E/verif/harness/src $E/verif/tools 2>/dev/null | while read f; do
+  grep -rlE "/repo|/verif" $E/verif/check $E/verif/harness/Cargo.toml $E/verif/harness/.cargo/config.toml $E/verif/harness/src $E/verif/harness-*/Cargo.toml $E/verif/harness-*/src $E/verif/tools 2>/dev/null | while read f; do
     sed -i "s|/repo|$E/repo|g; s|/verif|$E/verif|g" "$f"; done
   echo synced ;;
 run)
